@@ -217,7 +217,7 @@ pub fn run_case(c: &Case, r: &mut Report, prop: &str) {
             for v in [&ev, &nv] {
                 if let Some(Value::String(s)) = v {
                     let plain = Value::String(s.clone()).to_string();
-                    let esc: String = s.chars().enumerate().map(|(i, ch)| if ch.is_ascii() && !ch.is_ascii_control() && ch != '"' && ch != '\\' && (i % 3 == 0 || "T+:Z".contains(ch)) { format!("\\u{:04x}", ch as u32) } else { Value::String(ch.to_string()).to_string().trim_matches('"').to_string() }).collect();
+                    let esc: String = s.chars().enumerate().map(|(i, ch)| if ch.is_ascii() && !ch.is_ascii_control() && ch != '"' && ch != '\\' && (i % 3 == 0 || "T+:Z".contains(ch)) { format!("\\u{:04x}", ch as u32) } else { { let j = Value::String(ch.to_string()).to_string(); j[1..j.len() - 1].to_string() } }).collect();
                     payload = payload.replacen(&plain, &format!("\"{}\"", esc), 1);
                 }
             }
